@@ -12,6 +12,10 @@
 //!     instances; invalid inner proofs; truncation; trailing bytes.
 //! (c) `ipa_prove` / `ipa_verify` are private (module `inner_product_argument` is not exported);
 //!     they are exercised through (b) only.
+//! (d) the malicious aggregator (`c20_parts/forge.rs`): an aggregated proof over INVALID inner
+//!     statements built by a prover that re-creates the aggregator's private circuit from public
+//!     items and appends one right-hand-side base the circuit does not bind; the repository's
+//!     `LightAggregator::verify` must reject it.
 //!
 //! `--part a|b` restricts the run to one part (development aid); `--replay <file>` re-executes a
 //! recorded witness.
@@ -254,8 +258,8 @@ fn main() {
          synthesised by the reference collector and MockProver; non-trivial = the off-circuit verifier derives a different accumulator for the corrupted witness and the \
          claimed-instance verdicts (own accumulator, honest accumulator, +1 edits of vk identity / accumulator positions) are all obtained. \
          (b) per (N, inner relation): honest aggregate, then one verification per (element of the aggregated proof, mutation variant), per wrong inner instance, per \
-         truncation / trailing shape, per invalid inner proof position; non-trivial = the mutated bytes / instances differ from the honest ones. Element boundaries and \
-         kinds come from the verifier's own reads.",
+         truncation / trailing shape, per invalid inner proof position, plus one forged aggregate over invalid inner statements (extra unbound right-hand-side base); \
+         non-trivial = the mutated bytes / instances differ from the honest ones. Element boundaries and kinds come from the verifier's own reads.",
     );
     rep.assume("SRS: seeded ParamsKZG::unsafe_setup (trapdoor known to nobody in the run); negligible-probability acceptance of a mutated proof is ignored");
     rep.assume("inner proofs for the aggregator are made with a harness mirror of the aggregator's private LightPoseidonFS hash; a mismatch shows up as inconclusive");
